@@ -359,6 +359,8 @@ def nt_block(case, labels):
 
 def _hash_list(case):
     n, seed, mode = case["n"], case["seed"], case["mode"]
+    if mode == "counter":       # cheap distinct leaves for lists of 10^5 hashes
+        return [hashlib.sha256(b"%d/%d" % (seed, i)).digest() for i in range(n)]
     if mode == "distinct":
         return [_stream(seed, "m%d" % i, 32) for i in range(n)]
     if mode == "all-equal":
@@ -396,6 +398,9 @@ def cases_merkle(tier):
         for mode in ("distinct", "all-equal", "pairs-equal", "period3"):
             for seed in range(2 if tier == "quick" else 8):
                 yield {"n": n, "seed": seed, "mode": mode}
+    # leaf counts well beyond any real block (past 2^16 and 2^17, on and off powers of two)
+    for n in [65537, 131073] + ([131072, 171072, 262145, 393221] if tier == "thorough" else []):
+        yield {"n": n, "seed": 1, "mode": "counter"}
 
 
 def s_merkle():
